@@ -735,6 +735,11 @@ pub fn run_c06(args: &Args, report: &mut Report) {
         let (s1, tr, ops2) = (script.clone(), traces.clone(), ops.clone());
         let turn = lockstep.then(|| Arc::new(AtomicUsize::new(0)));
         let policy = if lockstep { crate::obs::Policy::none() } else { crate::engines::jobgen::random_policy(&mut crng) };
+        // one case in four has a second scripted source, merged or zipped with the first
+        let binary = if !lockstep && crng.chance(1, 4) { 1 + crng.below(2) } else { 0 };
+        let script_b = Arc::new(gen_script(&mut crng, &cfg, &mut next_id));
+        let sb = script_b.clone();
+        let layout = if binary != 0 { script_layout(&mut crng, script.replicas.max(script_b.replicas), false) } else { layout };
         // "across iterations": one case in four runs the operators as the body of a replay loop
         let in_loop = crng.chance(1, 4) && !ops.contains(&TOp::ToOne);
         let rounds = crng.usize(2, 3);
@@ -754,6 +759,19 @@ pub fn run_c06(args: &Args, report: &mut Report) {
             RunOpts { policy, ..Default::default() },
             move |ctx, _| {
                 let s = ctx.stream(ScriptSource::new(s1.clone(), turn.clone(), 60)).batch_mode(batch).probed(RecProbe::new(0, "source", &tr));
+                // two-input variants: a second scripted source is merged / zipped in (through
+                // shuffles, so that both inputs have the same replication)
+                let s = match binary {
+                    1 => {
+                        let b = ctx.stream(ScriptSource::new(sb.clone(), None, 60)).batch_mode(batch).boxed();
+                        s.shuffle().merge(b.shuffle()).probed(RecProbe::new(90, "Merge", &tr))
+                    }
+                    2 => {
+                        let b = ctx.stream(ScriptSource::new(sb.clone(), None, 60)).batch_mode(batch).boxed();
+                        s.shuffle().zip(b.shuffle()).map(|(a, _)| a).probed(RecProbe::new(90, "Zip", &tr))
+                    }
+                    _ => s,
+                };
                 let tr2 = tr.clone();
                 let ops3 = ops2.clone();
                 let chain = move |mut s: BStream<Rec>| -> BStream<Rec> {
@@ -781,8 +799,9 @@ pub fn run_c06(args: &Args, report: &mut Report) {
             |_, _| (),
         );
         let h = mix(hash_str(&format!("{:?}", script.steps)), hash_str(&format!("{ops:?}{}{batch:?}", layout.name())));
+        let second_name = ["none", "merge", "zip"][binary as usize];
         let detail = |err: Option<String>| json!({"engine":"scripts.watermarks","case":case,"shard":args.shard,"seed":args.seed,"layout":layout.name(),
-            "lockstep":lockstep,"ops":format!("{ops:?}"),"inside_replay_loop":in_loop,"batch":format!("{batch:?}"),
+            "lockstep":lockstep,"ops":format!("{ops:?}"),"inside_replay_loop":in_loop,"second_source": second_name,"batch":format!("{batch:?}"),
             "script": if script.steps.len() <= 40 { json!(script.steps.iter().map(|(r, e)| format!("r{r}:{e:?}")).collect::<Vec<_>>()) } else { json!(format!("{} steps on {} replicas", script.steps.len(), script.replicas)) },
             "error":err});
         if !res.all_ok() {
@@ -802,7 +821,7 @@ pub fn run_c06(args: &Args, report: &mut Report) {
         // probes in pipeline order: a known finding at one operator explains the consequences
         // seen by the probes downstream of it in the same job
         let mut sorted: Vec<&Trace> = all.iter().collect();
-        sorted.sort_by_key(|t| t.probe);
+        sorted.sort_by_key(|t| if t.probe == 90 { 0 } else { t.probe * 2 + 1 });
         let mut tainted_from: Option<(u32, &'static str)> = None;
         for t in sorted {
             wms += t.evs.iter().filter(|e| e.kind == K_WM).count() as u64;
